@@ -22,8 +22,14 @@ import multiprocessing
 from . import core
 from .core import Ctx, Violation, Precondition, SimCrash, Rng, h64
 
-RUN_TIMEOUT_S = int(os.environ.get("VERIF_RUN_TIMEOUT_S", "60"))
+RUN_TIMEOUT_S = int(os.environ.get("VERIF_RUN_TIMEOUT_S", "300"))     # hard: the zygote kills the run child
+SOFT_TIMEOUT_S = int(os.environ.get("VERIF_SOFT_TIMEOUT_S", "120"))   # soft: interval timer inside the run child
 BLOCK = 32
+
+
+class RunTimeout(BaseException):
+    pass
+
 
 
 # ---------------------------------------------------------------------------------------------
@@ -68,8 +74,24 @@ def execute_in_this_process(machine, script):
     ctx = Ctx(script)
     res = {"violation": None, "precondition": None, "harness_error": None}
     random.seed(h64(script.get("seed", 0), script.get("run", 0), "stdlib-random"))
+
+    def _soft_timeout(signum, frame):
+        raise RunTimeout("run exceeded %d s (library call that does not return, or an overloaded machine)" % SOFT_TIMEOUT_S)
     try:
-        machine.run(script, ctx)
+        signal.signal(signal.SIGALRM, _soft_timeout)
+        signal.setitimer(signal.ITIMER_REAL, SOFT_TIMEOUT_S)
+    except Exception:
+        pass
+    try:
+        try:
+            machine.run(script, ctx)
+        finally:
+            try:
+                signal.setitimer(signal.ITIMER_REAL, 0)
+            except Exception:
+                pass
+    except RunTimeout as t:
+        res["harness_error"] = "TIMEOUT: %s at step %s" % (t, ctx.step)
     except Violation as v:
         res["violation"] = {"class": v.cls, "sig": v.sig, "msg": v.msg[:2000], "step": ctx.step}
     except Precondition as p:
@@ -257,10 +279,19 @@ def _worker_block(args):
     if zy is None:
         zy = _W[machine_name] = Zygotes(machine_name)
     out = []
+    timeouts = 0
     for run in range(start, stop):
         avoid = avoid_policy if (run % 2 == 1) else []
         script = make_script(machine_name, prop, seed, run, tier, avoid)
-        res = zy.execute(script)
+        if timeouts >= 2:
+            # do not let a hanging library keep the batch busy for hours: the verdict is already 'harness error'
+            res = {"violation": None, "precondition": None, "harness_error": "skipped: two earlier runs of this block timed out",
+                   "digest": "", "nlog": 0, "probes": {}, "faults": {}, "nontrivial": False, "states": [], "sim_time": 0.0,
+                   "ops_executed": 0, "ops_skipped": 0, "extra": {}}
+        else:
+            res = zy.execute(script)
+        if res["harness_error"] and ("TIMEOUT" in res["harness_error"] or "timed out" in res["harness_error"]):
+            timeouts += 1
         keep = res["violation"] is not None or res["harness_error"] is not None or run % 97 == 0
         out.append((run, res, core.digest(script.get("ops", [])), script if keep else None))
     return out
